@@ -138,7 +138,7 @@ def do_check(pid, tier, keep=False, only=None):
                 # A failure reported through an SMT flavour is only believed when the SAT back end
                 # confirms it: CBMC's SMT2 output over-approximates some operations (observed: a
                 # spurious chrono::expect panic through checked_mul under the cvc5 flavour).
-                if cur in ('cvc5', 'cvc5-fpa') and not r['killed'] and 'VERIFICATION:- FAILED' in r['out'] and 'CBMC failed with status' not in r['out']:
+                if cur in ('cvc5', 'cvc5-fpa') and u.harness[hn].get('expect') != 'canary' and not r['killed'] and 'VERIFICATION:- FAILED' in r['out'] and 'CBMC failed with status' not in r['out']:
                     r2 = kr.run_harness(u, hn, solver_override='cadical', timeout=u.harness[hn].get('fallback_timeout', 400))
                     r2['wall_s'] += r['wall_s']
                     r2['fallback_from'] = cur + ' reported a failure; re-decided by the SAT back end'
@@ -275,7 +275,10 @@ def do_check(pid, tier, keep=False, only=None):
             kr.close()
 
     # ---------------- evidence ----------------
-    counted = [o for o in obligations if not o.get('bounded') and not o.get('known_finding')]
+    is_proof = prop.get('category', 'proof') == 'proof'
+    # a property claimed at level "other" (bounded checking of the real functions) counts its
+    # bounded obligations - they are what it claims; at level "proof" they are never counted
+    counted = [o for o in obligations if (not o.get('bounded') or not is_proof) and not o.get('known_finding')]
     discharged = [o for o in counted if o['status'] == 'SUCCESS']
     ev = {
         'property_id': pid, 'tier': tier, 'seed': seed, 'level': prop.get('category', 'proof'),
@@ -297,6 +300,8 @@ def do_check(pid, tier, keep=False, only=None):
         'wall_s': round(time.time() - t0, 2),
         'violations': len(violations),
     }
+    if not is_proof:
+        ev['coverage']['explanation'] = prop.get('level_text', '') + ' Every obligation listed is a BOUNDED check of the real functions (bounds in bounded_standins_not_counted); nothing here is claimed as proved for all inputs.'
     if not only:
         # seeded-change experiments (vx/seedtest.sh) must not overwrite the committed evidence
         dump_json(os.path.join(os.environ.get('VERIF_EVIDENCE_DIR', EVIDENCE), f'{pid}.json'), ev)
